@@ -36,6 +36,8 @@ type faCase struct {
 
 	idents      []string // metavariables declared 'identifier'
 	nonInstance bool     // the template is deliberately NOT an instance (kind or shape mismatch): pick the innermost node spanning the site
+	loose       bool     // the fillers of an elision can complete another decomposition of the pattern: only "an instance by the template's decomposition is matched and rewritten" is asserted
+	extra       int      // instances written out in the template outside the ⟦sites⟧ (each the first of its own block for statement patterns)
 }
 
 type faHole struct {
@@ -277,6 +279,17 @@ func faSymbolise(leaves []*faLeaf) {
 			switch o[0] {
 			case '"', '`', '\'':
 				if len(o) <= 2 {
+					l.symS, l.eq = o, true
+					continue
+				}
+				plain := true
+				for i := 1; i < len(o)-1; i++ {
+					if o[i] < 'a' || o[i] > 'z' {
+						plain = false
+					}
+				}
+				if !plain {
+					// text with spaces, newlines, escapes: kept as it is
 					l.symS, l.eq = o, true
 					continue
 				}
